@@ -803,7 +803,9 @@ class eval_abs(object):
                     a = xx
                     mask = (1<<(stop-start))-1
                     total_bit+=stop-start
-                    mycond, mysrc1, mysrc2 = a.cond, a.src1.arg&mask, a.src2.arg&mask
+                    mycond = a.cond
+                    mysrc1 = (int(a.src1.arg)&mask)<<start
+                    mysrc2 = (int(a.src2.arg)&mask)<<start
 
             mysrc1|=rez
             mysrc2|=rez
